@@ -21,6 +21,8 @@ def run(chk):
     chk.rule("T.open-toggle", "an open edge crossing a closed edge toggles its contribution iff the closed edge bounds the region the open "
              "path is cut against (non-Union: clip edge on the clip-filled boundary; Union: edge of the closed solution)")
     chk.rule("HORZ.open-end", "DoHorizontal keeps its end-of-segment tests active unless the edge is a closed-path maximum (an open end has no maxima pair)")
+    chk.rule("OPENFLAG.preserved", "has_open_paths_ (which switches IntersectEdges' open-path branch on) is not written by any Execute overload: it is set "
+             "by the Add family and reset by Clear together with the paths")
     chk.rule("ADD.closing-vertex", "AddPaths_ drops a trailing vertex equal to the first one iff the path is closed")
     chk.rule("SIBLING.64-D", "BuildPath64 / BuildPathD treat open paths alike")
     for cfg in cfgs:
@@ -29,6 +31,12 @@ def run(chk):
         e3.table_open_toggle(db, chk, cfg)
         e3.closing_vertex_rule(db, chk, cfg)
         e3.horz_open_end_rule(db, chk, cfg)
+        # the open-path flag describes the loaded input: no Execute may change it (the open paths themselves stay loaded)
+        from ..engines import e2_state as e2
+        from .c12 import BASE
+        for cls in (["ClipperBase", "Clipper64"], ["ClipperBase", "ClipperD"]):
+            eng = e2.E2(db, chk, cfg, cls)
+            e2.rule_config_preserved(eng, chk, cfg, db.find(cls[-1] + "::Execute"), BASE, {}, rule="OPENFLAG.preserved", only={"has_open_paths_"})
         try:
             from ..engines import e6_siblings as e6
         except ImportError:
